@@ -132,7 +132,7 @@ func ruleInjectiveEncoder(r *Run, fn *ssa.Function, name string, sinkPkg, sinkTy
 			if callee == nil || callee.Signature.Recv() == nil {
 				continue
 			}
-			if !strings.HasPrefix(callee.Name(), "Write") {
+			if !strings.HasPrefix(cname(callee), "Write") {
 				continue
 			}
 			rt := namedOf(callee.Signature.Recv().Type())
